@@ -24,8 +24,11 @@ def run(ctx):
     cases = []
     for _ in range(n):
         comps = g.gen_comps(rng, 400)
-        if rng.random() < 0.3:
+        r = rng.random()
+        if r < 0.25:
             comps = gb.add_config_comp(rng, comps)
+        elif r < 0.6:
+            comps = g.gen_mixed_comps(rng)
         cases.append((rng.choice(OFFS), hx(g.gen_key(rng)), comps))
     nontriv = lambda line, res: not line.endswith(" -")
     ctx.correspond([f"bf3.tobin {o} {k} {c}" for o, k, c in cases], "tobin", nontriv)
